@@ -258,6 +258,32 @@ macro_rules | `(tactic| sat_rule) => `(tactic| with_reducible exact sat_cbcOpen_
 
 /-! ## crypto (symmetric.go) -/
 
+/-- the standard library's `Seal(dst, …)` contract: an append to `dst` -/
+theorem sat_stdSeal (env : Env) (dst pt : Slice) (ov : Nat)
+    (hW : dst.cap ≥ dst.len + (pt.len + ov) →
+      ∀ i, dst.off + dst.len ≤ i → i < dst.off + dst.len + (pt.len + ov) → W dst.arr i) :
+    Sat n W (stdSeal env dst pt ov) (fun _ => True) := by
+  unfold stdSeal
+  refine sat_mono (sat_append _ _ (Or.inr ?_)) fun _ _ => trivial
+  intro hc i h1 h2
+  simp only [Env.length_bytes] at hc h1 h2
+  exact hW (by omega) i h1 h2
+
+theorem sat_stdOpen (env : Env) (dst ct : Slice) (ov : Nat) (e : String)
+    (hW : dst.cap ≥ dst.len + (ct.len - ov) →
+      ∀ i, dst.off + dst.len ≤ i → i < dst.off + dst.len + (ct.len - ov) → W dst.arr i) :
+    Sat n W (stdOpen env dst ct ov e) (fun _ => True) := by
+  unfold stdOpen
+  split
+  · exact sat_fail _
+  · refine sat_bind (sat_append _ _ (Or.inr ?_)) fun _ _ => ?_
+    · intro hc i h1 h2
+      simp only [Env.length_bytes] at hc h1 h2
+      exact hW (by omega) i h1 h2
+    · split
+      · exact sat_pure trivial
+      · exact sat_fail _
+
 theorem sat_stdSeal_nil (env : Env) (pt : Slice) (ov : Nat) :
     Sat n W (stdSeal env Slice.nil pt ov) (fun _ => True) := by
   unfold stdSeal
